@@ -5,9 +5,33 @@
 package fsmodel
 
 import (
+	"io/fs"
 	"os"
 	"path/filepath"
+	"time"
 )
+
+// Info is the os.FileInfo the engine's os.Stat stub hands out.
+type Info struct {
+	N string
+	D bool
+}
+
+func (i Info) Name() string       { return i.N }
+func (i Info) Size() int64        { return 0 }
+func (i Info) Mode() fs.FileMode  { return 0 }
+func (i Info) ModTime() time.Time { return time.Time{} }
+func (i Info) IsDir() bool        { return i.D }
+func (i Info) Sys() interface{}   { return nil }
+
+// Stat follows nothing but reports dangling links as missing (os.Stat semantics).
+func Stat(fs *FS, path string) (os.FileInfo, bool) {
+	n := resolve(fs, path)
+	if n == nil || n.Kind == Dangling {
+		return nil, false
+	}
+	return Info{N: n.Name, D: n.Kind == Dir}, true
+}
 
 // Kind of a directory entry.
 const (
